@@ -464,6 +464,12 @@ func (c *Ctx) identityOrigins(os []Origin) []Origin {
 			}
 			if userSources[n] {
 				out = append(out, o)
+			} else if call, ok := o.V.(*ssa.Call); ok {
+				// any other call whose result is a user object
+				res := call.Call.Signature().Results()
+				if o.Idx < res.Len() && c.isUserType(res.At(o.Idx).Type()) {
+					out = append(out, o)
+				}
 			}
 		case "param", "freevar":
 			if c.isUserType(o.V.Type()) {
@@ -571,4 +577,13 @@ func (c *Ctx) DerivesFrom(v ssa.Value, pred func(Origin) bool, depth int) bool {
 		return false
 	}
 	return rec(v, depth)
+}
+
+// structOf returns the struct type behind t (through one pointer), or nil.
+func structOf(t types.Type) *types.Struct {
+	if p, ok := t.Underlying().(*types.Pointer); ok {
+		t = p.Elem()
+	}
+	st, _ := t.Underlying().(*types.Struct)
+	return st
 }
